@@ -810,7 +810,15 @@ func checkMain(t *testing.T) {
 	classes := sortedKeys(agg.viol)
 	for _, class := range classes {
 		lines := agg.viol[class]
-		sort.Slice(lines, func(i, j int) bool { return lines[i].NDec < lines[j].NDec })
+		// the representative: a run that was the first of its worker process if there is one (what it
+		// shows cannot depend on anything the library remembered from earlier runs), else the shortest
+		sort.SliceStable(lines, func(i, j int) bool {
+			fi, fj := lines[i].Idx < workers, lines[j].Idx < workers
+			if fi != fj {
+				return fi
+			}
+			return lines[i].NDec < lines[j].NDec
+		})
 		wl := lines[0]
 		isKnown := false
 		for _, k := range known {
@@ -941,6 +949,33 @@ func checkMain(t *testing.T) {
 				fmt.Printf("note: replay %s re-based on a fresh process (the library keeps state across runs)\n", path)
 				historyDependent++
 				code = 1
+			}
+		}
+		if code == 3 {
+			// The minimiser runs its candidates in one process: with a library that keeps state
+			// across runs a shrunken candidate may "fail" only because of what earlier candidates
+			// left behind. Fall back to the run as the worker executed it (the seed alone).
+			det := ""
+			for _, v := range wl.Viol {
+				if v.Class == class {
+					det = v.Detail
+				}
+			}
+			frf := replayFile{Property: prop, Class: class, Detail: det, Scenario: wl.Scenario, Seed: wl.Seed, BaseSeed: *fSeed, RunIndex: wl.Idx, Hash: wl.Hash, Config: wl.Config, NDec: wl.NDec, OrigNDec: wl.NDec}
+			if js, err := json.MarshalIndent(&frf, "", " "); err == nil {
+				writeFileAtomic(path, js)
+			}
+			c1, _ := freshReplay()
+			if c1 == 4 {
+				freshReplay("-verif.rehash")
+				c1, _ = freshReplay()
+			}
+			if c1 == 1 {
+				fmt.Printf("note: minimisation of %s discarded (its shrunken candidates failed only because of state the library kept between them); reporting the unminimised run\n", class)
+				historyDependent++
+				code = 1
+				detail, rf.NDec = det, wl.NDec
+				rf.OrigNDec = wl.NDec
 			}
 		}
 		if code == 3 {
